@@ -177,7 +177,17 @@ fn do_reads(storage: &dyn Storage, reads: &[Read]) -> Vec<ReadRes> {
         .iter()
         .map(|r| match r {
             Read::Get(k) => ReadRes::Got(storage.get(&k.0)),
-            Read::Scan => ReadRes::Scanned(storage.range(None, None, Order::Ascending).collect()),
+            Read::Scan => {
+                let mut all: Vec<(Vec<u8>, Vec<u8>)> = storage.range(None, None, Order::Ascending).collect();
+                // the other iteration forms a contract can use must show the same entries
+                let mut keys_desc: Vec<Vec<u8>> = storage.range_keys(None, None, Order::Descending).collect();
+                keys_desc.reverse();
+                let vals: Vec<Vec<u8>> = storage.range_values(None, None, Order::Ascending).collect();
+                if keys_desc != all.iter().map(|(k, _)| k.clone()).collect::<Vec<_>>() || vals != all.iter().map(|(_, v)| v.clone()).collect::<Vec<_>>() {
+                    all.push((b"<range_keys / range_values disagree with range>".to_vec(), format!("{} keys, {} values", keys_desc.len(), vals.len()).into_bytes()));
+                }
+                ReadRes::Scanned(all)
+            }
         })
         .collect()
 }
